@@ -48,15 +48,15 @@ trait Item {
 }
 impl Item for &[u32] {
     fn enc(self, _k: Option<usize>, o: &mut Vec<u64>) {
-        o.extend([1, self.first().copied().unwrap_or(0) as u64, self.len() as u64]);
+        o.extend([1, ident(self.first().copied().unwrap_or(0)), self.len() as u64]);
     }
     fn enc_fold(self, o: &mut Vec<u64>) {
-        o.extend([self.first().copied().unwrap_or(0) as u64, self.len() as u64]);
+        o.extend([ident(self.first().copied().unwrap_or(0)), self.len() as u64]);
     }
 }
 impl Item for &mut [u32] {
     fn enc(self, k: Option<usize>, o: &mut Vec<u64>) {
-        o.extend([1, self.first().copied().unwrap_or(0) as u64, self.len() as u64]);
+        o.extend([1, ident(self.first().copied().unwrap_or(0)), self.len() as u64]);
         if let Some(k) = k {
             for x in self.iter_mut() { *x += mark(k); }
         }
@@ -66,18 +66,24 @@ impl Item for &mut [u32] {
     }
 }
 impl Item for &u32 {
-    fn enc(self, _k: Option<usize>, o: &mut Vec<u64>) { o.extend([1, *self as u64]); }
-    fn enc_fold(self, o: &mut Vec<u64>) { o.push(*self as u64); }
+    fn enc(self, _k: Option<usize>, o: &mut Vec<u64>) { o.extend([1, ident(*self)]); }
+    fn enc_fold(self, o: &mut Vec<u64>) { o.push(ident(*self)); }
 }
 impl Item for &mut u32 {
     fn enc(self, k: Option<usize>, o: &mut Vec<u64>) {
-        o.extend([1, *self as u64]);
+        o.extend([1, ident(*self)]);
         if let Some(k) = k { *self += mark(k); }
     }
-    fn enc_fold(self, o: &mut Vec<u64>) { o.push(*self as u64); }
+    fn enc_fold(self, o: &mut Vec<u64>) { o.push(ident(*self)); }
 }
 
-fn drive<I>(mut it: I, case: &ICase, o: &mut Vec<u64>, idx: Option<&dyn Fn(&I, usize) -> u32>)
+fn drive<I>(it: I, case: &ICase, o: &mut Vec<u64>, idx: Option<&dyn Fn(&I, usize) -> u32>)
+where I: DoubleEndedIterator + ExactSizeIterator, I::Item: Item {
+    drive_mut(it, case, o, idx, None)
+}
+
+/// `idx_mut`: the IndexMut form of indexing (ColMut): reads the cell, then adds the step's mark
+fn drive_mut<I>(mut it: I, case: &ICase, o: &mut Vec<u64>, idx: Option<&dyn Fn(&I, usize) -> u32>, idx_mut: Option<&dyn Fn(&mut I, usize, u32) -> u32>)
 where I: DoubleEndedIterator + ExactSizeIterator, I::Item: Item {
     for (k, (op, n)) in case.calls.iter().enumerate() {
         let n = *n as usize;
@@ -87,12 +93,16 @@ where I: DoubleEndedIterator + ExactSizeIterator, I::Item: Item {
             2 => match it.nth(n) { Some(x) => x.enc(Some(k), o), None => o.push(0) },
             3 => match it.nth_back(n) { Some(x) => x.enc(Some(k), o), None => o.push(0) },
             4 => o.push(it.len() as u64),
-            _ => match idx {
-                Some(f) => match catch_unwind(AssertUnwindSafe(|| f(&it, n))) {
-                    Ok(v) => o.extend([1, v as u64]),
+            _ => match (idx_mut, idx) {
+                (Some(f), _) if case.mutable => match catch_unwind(AssertUnwindSafe(|| f(&mut it, n, mark(k)))) {
+                    Ok(v) => o.extend([1, ident(v)]),
                     Err(_) => o.push(0),
                 },
-                None => o.push(0),
+                (_, Some(f)) => match catch_unwind(AssertUnwindSafe(|| f(&it, n))) {
+                    Ok(v) => o.extend([1, ident(v)]),
+                    Err(_) => o.push(0),
+                },
+                _ => o.push(0),
             },
         }
     }
@@ -117,6 +127,9 @@ where I: DoubleEndedIterator + ExactSizeIterator, I::Item: Item {
 
 fn col_idx<'a>(it: &Col<'a, u32>, i: usize) -> u32 { *it.index(i) }
 fn colmut_idx<'a>(it: &ColMut<'a, u32>, i: usize) -> u32 { *it.index(i) }
+fn colmut_idx_mut<'a>(it: &mut ColMut<'a, u32>, i: usize, m: u32) -> u32 { use std::ops::IndexMut; let cell = it.index_mut(i); let old = *cell; *cell += m; old }
+/// the cell's identity: its original value (marks are multiples of 1000, arrays of this family have fewer cells)
+fn ident(x: u32) -> u64 { (x % 1000) as u64 }
 
 fn run_on<V: TooDeeOps<u32>>(v: &V, case: &ICase, o: &mut Vec<u64>) {
     match case.kind {
@@ -128,7 +141,7 @@ fn run_on<V: TooDeeOps<u32>>(v: &V, case: &ICase, o: &mut Vec<u64>) {
 fn run_on_mut<V: TooDeeOpsMut<u32>>(v: &mut V, case: &ICase, o: &mut Vec<u64>) {
     match case.kind {
         0 => drive(v.rows_mut(), case, o, None),
-        1 => drive(v.col_mut(case.col as usize), case, o, Some(&colmut_idx)),
+        1 => drive_mut(v.col_mut(case.col as usize), case, o, Some(&colmut_idx), Some(&colmut_idx_mut)),
         _ => drive(v.cells_mut(), case, o, None),
     }
 }
